@@ -6,8 +6,13 @@
 // goahttp.ContentTypeKey (absent, the five supported types, suffixed vendor types, parameters,
 // case variants, unknown, malformed); Content-Type headers already present on the
 // ResponseWriter (none, plain, vendor without / with suffix, with parameters, unparsable);
-// values (struct with json/xml tags, string, *string, []byte, map[string]string,
-// goahttp.ErrorResponse, nil *string). Request side: Content-Type menu x body (the value in every
+// values (struct with json/xml tags, string, *string, []byte, map[string]string, nil *string, and
+// the one run-time type of goa with marshalling code of its own, errvalues.go:
+// *goahttp.ErrorResponse for all 8 timeout x temporary x fault combinations x text variety, handed
+// to Encoder.Encode directly AND produced by the default error path
+// goahttp.ErrorEncoder(encoder, nil) from goa.ServiceError values - the error itself, wrapped with
+// %w, wrapped twice, joined, built by NewServiceError, carrying a Field - and from errors that are
+// no ServiceError). Request side: Content-Type menu x body (the value in every
 // format that can carry it, empty, garbage) x target type x Accept of the error answer.
 //
 // Bound: the COMPLETE product of the menus (quick: base menus; thorough: systematic case /
@@ -24,6 +29,10 @@
 //   - missing / unrecognised Accept and unknown / malformed designed types give a JSON body; a
 //     single media range naming a supported type gives that type;
 //   - an Encode error is legitimate (XML cannot carry a map, text only strings and bytes);
+//   - error responses: the original is a harness-owned mirror struct (documented wire names, no
+//     methods), compared field by field; on the default error path the status written agrees
+//     with the error's flags and with the flags the body carries (documented mapping: 415
+//     unsupported media type, 500 fault, 504 timeout+temporary, 408 timeout, 503 temporary, 400);
 //   - requests: absent Content-Type and supported media types decode exactly as the reference
 //     codec of the announced format does (same value, or both fail, never 415); unsupported
 //     media types - decided by the name before the first ';', however broken the rest of the
@@ -66,18 +75,19 @@ func selfCheckValues(c *core.Ctx, values []valueSpec) {
 		if v.NoValue {
 			continue
 		}
-		want := canon(v.Make())
+		orig := v.origs()[0]
+		want := canon(orig)
 		for _, f := range allFormats {
-			b, err := refEncode(f, v.Make())
+			b, err := refEncode(f, orig)
 			if err != nil {
 				continue
 			}
 			carried[f]++
-			t := v.Target()
-			if err := refDecode(f, b, t); err != nil || canon(t) != want {
+			t := v.refTarget()
+			if err := refDecode(f, b, t); err != nil || canon(v.norm(t)) != want {
 				c.HarnessError("menu value %s does not survive the reference %s codec (err=%v got=%s want=%s)", v.ID, f, err, canon(t), want)
 			}
-			if got := sniff(b, v, want); got != f {
+			if got := sniff(b, v); got != f {
 				c.HarnessError("menu value %s: %s body is also readable as %s; formats not distinguishable", v.ID, f, got)
 			}
 		}
@@ -301,7 +311,7 @@ func runRequests(c *core.Ctx, k *counters) {
 	all := pick(allValues(), thorough)
 	for i := range all {
 		v := &all[i]
-		if v.NoValue {
+		if v.NoValue || v.Err != nil {
 			continue
 		}
 		c.State("client|v="+v.ID, true)
@@ -326,7 +336,17 @@ func run(c *core.Ctx) {
 	c.Assume("the structured-syntax suffixes +json/+xml/+gob announce json/xml/gob (RFC 6839 style); +html/+txt and unknown types carry no independent format claim, only the round trip through goa's decoder is required for them")
 	c.Assume("media types are case-insensitive and parameters do not change the type (RFC 7231 3.1.1.1): a single well-formed media range naming a supported type counts as that type; lists, wildcards, q=0 and suffixed Accept values carry no expectation beyond consistency")
 	c.Assume("nil *string has no value to recover: only the absence of a panic is required for it")
+	c.Assume("error responses: the wire shape of goahttp.ErrorResponse is its documented one (name, id, message, temporary, timeout, fault; XML root element free); " +
+		"the response of an error carries the Name, ID, flags and Message of the goa.ServiceError found in its chain (for a wrapped error the wrapper's text is accepted as message too); " +
+		"an error that is no ServiceError is a fault with the error text as message, name and ID being goa's choice; status mapping as documented for ErrorResponse.StatusCode")
 	k := &counters{outcomes: map[string]int64{}}
+	kinds := map[string]int{}
+	for _, v := range pick(allValues(), c.Thorough()) {
+		kinds[v.Kind]++
+	}
+	c.Note("values_by_kind", kinds)
+	c.Note("error_value_menus", fmt.Sprintf("flags 8 (timeout x temporary x fault) x texts %d x {direct *ErrorResponse, %d constructions through ErrorEncoder} + 2 non-ServiceError errors; quick: texts full/empty, constructions svc/wrapped, 1 plain error",
+		len(errTexts), len(errConstructions)))
 	selfCheckValues(c, allValues())
 	runResponses(c, k)
 	runRequests(c, k)
@@ -336,7 +356,7 @@ func run(c *core.Ctx) {
 			"P1 base Accept x full designed x full pre-set x full values; P2 full Accept x absent designed x full pre-set x full values; P3 full Accept x full designed x 4 pre-sets x 3 values; "+
 			"request side: complete product of the full Content-Type menu x all bodies (incl. garbage) x 6 Accept values")
 	} else {
-		c.Note("bounds", "quick: complete product of the base menus (every class of the design's alphabet at least once) with one value per kind")
+		c.Note("bounds", "quick: complete product of the base menus (every class of the design's alphabet at least once) with one value per kind, and for error responses all 8 flag combinations x {full, empty} texts x {direct, ServiceError, wrapped ServiceError} + a plain error")
 	}
 }
 
